@@ -543,6 +543,18 @@ func (x *Exec) evalValue(st *State, fr *Frame, v ssa.Value) SV {
 	switch n := v.(type) {
 	case *ssa.Alloc:
 		et := derefType(n.Type())
+		if at, ok := et.Underlying().(*types.Array); ok && n.Comment == "slicelit" && at.Len() <= 64 {
+			// the array behind a slice literal lives where slice backings live, so that the slice keeps
+			// denoting it after it has been stored to and loaded from memory (a struct field, a parameter)
+			ref := x.freshRef(st)
+			info := &PtrInfo{rootKey: "[]" + typeKey(at.Elem()), rootTy: at.Elem(), backing: true}
+			for i := int64(0); i < at.Len(); i++ {
+				ep := SV{ty: types.NewPointer(at.Elem()), l: []*Term{ref},
+					p: &PtrInfo{rootKey: info.rootKey, rootTy: info.rootTy, backing: true, steps: []Step{{field: -1, idx: mkBV(i, 64)}}}}
+				st.store(x, ep, zeroSV(at.Elem()))
+			}
+			return SV{ty: n.Type(), l: []*Term{ref}, p: info}
+		}
 		ref := x.freshRef(st)
 		p := SV{ty: n.Type(), l: []*Term{ref}}
 		st.store(x, p, zeroSV(et))
@@ -966,6 +978,10 @@ func (x *Exec) sliceOp(st *State, fr *Frame, n *ssa.Slice) SV {
 		info := a.p
 		if info == nil {
 			info = &PtrInfo{rootKey: typeKey(u.Elem()), rootTy: u.Elem()}
+		}
+		if info.backing && len(info.steps) == 0 && strings.HasPrefix(info.rootKey, "[]") {
+			// array of a slice literal (see Alloc): an ordinary slice over its backing
+			return SV{ty: n.Type(), l: []*Term{a.l[0], lo, BvBin("bvsub", hi, lo), BvBin("bvsub", mx, lo)}}
 		}
 		return SV{ty: n.Type(), l: []*Term{a.l[0], lo, BvBin("bvsub", hi, lo), BvBin("bvsub", mx, lo)},
 			p: &PtrInfo{rootKey: info.rootKey, rootTy: info.rootTy, backing: info.backing, steps: info.steps}}
